@@ -22,7 +22,7 @@ ASSUMPTIONS = [
     "CommandManager.call_strings is abstracted to a ghost call record in the execute contract (its body is inspect.signature binding + type conversion; covered by T2)",
     "str.replace(a, b) with a one-character a: the result contains no a if b does not, and equals the input if a does not occur (library contract in pyvc/libx_tools.py)",
     "re.Pattern.sub(repl, s) for _StrType.escape_sequences: the result is s when s contains no backslash (every alternative of the pattern starts with a backslash); otherwise an uninterpreted string",
-    "T2 alphabet: space, tab, newline, ', \", backslash, a, n, x, 2, e-acute; strings <= 3 (quick) / <= 4 (thorough) as single arguments, <= 2 / <= 3 as two or three arguments",
+    "T2 alphabet: space, tab, newline, U+00A0, U+0085 (whitespace the lexer does not split at), ', \", backslash, a, n, x, 2, e-acute; strings <= 3 (quick) / <= 4 (thorough) as single arguments, <= 2 / <= 3 as two or three arguments",
 ]
 Q = "mitmproxy.command_lexer:quote"
 U = "mitmproxy.command_lexer:unquote"
@@ -173,7 +173,7 @@ def s_strtype(vc):
 # =====================================================================================================================
 # T2 (bounded): the real lexer + CommandManager + converters
 
-ALPHABET = [" ", "\t", "\n", "'", '"', "\\", "a", "n", "x", "2", "é"]
+ALPHABET = [" ", "\t", "\n", "\xa0", "\x85", "'", '"', "\\", "a", "n", "x", "2", "é"]
 
 
 def _strings(maxlen, alphabet=ALPHABET):
@@ -295,6 +295,14 @@ def bounded(tier, seed):
             for c in ones:
                 for d in ones:
                     run("args", "t.args", [a, c, d])
+        # whitespace characters the lexer does NOT split at are argument text: alone, repeated, mixed, between other arguments
+        for w in ["\xa0", "\x85", "\u2003", "\x1c", "\x0b", "\x0c", "\u3000"]:
+            for vals in ([w], [w + w], [w + " "], [" " + w], ["a", w, "b"], [w, "a"], ["a", w], [w, w], ["a" + w + "b", w]):
+                run("args", "t.args", list(vals))
+                run("strs", "t.strs", list(vals))
+                if len(vals) == 1:
+                    run("path", "t.path", list(vals))
+                    run("arg", "t.arg", list(vals))
         # zero arguments / blank handling around the command word
         for line, exp in [("t.args", ()), (" t.args ", ()), ("t.args\t", ())]:
             got.clear()
@@ -306,3 +314,46 @@ def bounded(tier, seed):
             except Exception as e:
                 b.fail("execute.no_arguments", {"line": line}, f"raised {type(e).__name__}: {e}")
     return b
+
+
+# ---- T1: which tokens are separators ---------------------------------------------------------------------------------
+
+def _only_blank(vc, s):
+    """s is non-empty and consists of the characters the lexer splits at (SP HT CR LF) only"""
+    if vc.mode == "native":
+        return s != "" and all(c in WS for c in s)
+    import z3
+    from pyvc import libx_tools
+    return And(len_(s) > 0, SBool(z3.InRe(s.t, libx_tools.charset_star(WS))))
+
+
+@scenario("parse_partial.separators", functions=[CM + ".parse_partial"])
+def s_separators(vc):
+    """A token is a separator iff it consists of SP/HT/CR/LF only (what command_lexer.expr splits at); every other token --
+    including one made of other whitespace such as U+00A0, U+0085, U+2003 -- is a word and keeps its text."""
+    n = vc.case("tokens", [1, 2, 3])
+    toks = [vc.sym_str(f"tok{i}") for i in range(n)]
+    for t in toks:
+        vc.assume(len_(t) > 0)
+
+    def parse_string(v, self_, s, parse_all=False, **kw):
+        return v.list(list(toks))
+
+    vc.summary("pyparsing.core:ParserElement.parse_string", parse_string)
+    mgr = vc.new(CM, master=None, commands=vc.dict([]))
+    out = vc.call(CM + ".parse_partial", mgr, vc.sym_str("cmdstr"))
+    vc.ensure("separators.total", out.ok)
+    if not out.ok:
+        return
+    import mitmproxy.types as T
+    res = out.result
+    parsed = res[0] if vc.mode == "native" else res.items[0]
+    items = list(parsed) if vc.mode == "native" else list(parsed.items)
+    vc.ensure("separators.one_result_per_token", len(items) == n)
+    if len(items) != n:
+        return
+    for i, (p, t) in enumerate(zip(items, toks)):
+        typ = p.type
+        is_space = (typ.obj is T.Space) if isinstance(typ, SConst) else (typ is T.Space)
+        vc.ensure(f"separators.text_kept[{i}]", p.value == t)
+        vc.ensure(f"separators.space_iff_only_SP_HT_CR_LF[{i}]", Iff(is_space, _only_blank(vc, t)))
